@@ -449,7 +449,8 @@ class Fn:
         if name == "int" and len(e.args) == 1:
             if self.closed_float(e.args[0]):
                 val = eval(compile(ast.Expression(e), "<const>", "eval"), {"__builtins__": {"int": int, "round": round, "pow": pow}})
-                self.notes.append("%s is the constant %d (closed expression evaluated by CPython)" % (ast.unparse(e), val))
+                self.notes.append("%s is the constant %d (closed expression evaluated by CPython)" % (
+                    self.mod.segment(e) or ast.unparse(e), val))
                 return V(lit(val), INT, val, val)
             a = self.expr(e.args[0], env)
             if a.t == INT:
@@ -852,8 +853,12 @@ class Fn:
         pre = self.flush("")
         if c == "True":
             # statically true test (isinstance of a declared parameter): only the body exists
-            if s.orelse and self.has_exit(s.orelse):
-                pass
+            if s.orelse:
+                self.notes.append("the else branch at line %d is unreachable under the declared parameter classes "
+                                  "and is not translated" % s.orelse[0].lineno)
+            else:
+                self.notes.append("the implicit `return None` when the test at line %d is false is unreachable under "
+                                  "the declared parameter classes" % s.lineno)
             return pre + self.block(list(s.body) + rest, env, k)
         if self.has_exit(s.body) or self.has_exit(s.orelse):
             if self.loop and self.has_exit(s.body + s.orelse, returns_only=True):
